@@ -696,3 +696,97 @@ def n_two_bytes(ch, root):
 
 NODE_SCENARIOS["single-byte"] = n_single_byte
 NODE_SCENARIOS["two-bytes"] = n_two_bytes
+
+
+# ---------------------------------------------------------------------------------------------------
+# whole-envelope scenario: one realistic envelope in which many features co-occur; every feature is a choice point, so
+# deviation bound d covers all interactions of up to d features (root, hierarchical, signed, severed, encrypted ...)
+# ---------------------------------------------------------------------------------------------------
+
+def n_whole(ch, root):
+    files = {}
+    B = BITS
+    alg = ch.choose("wrapper-alg", ALG5)
+    man = {"suit-manifest-version": 1, "suit-manifest-sequence-number": ch.choose("seq", [1, 0, 24, 2**32])}
+    comps = copy.deepcopy(ch.choose("components", [[["M", 2, 235577344, 352256]], [], [["M", 2, 235577344, 352256], ["CAND_MFST", 0], ["INSTLD_MFST", dict(UUID_RAW)]]]))
+    common = {"suit-components": comps}
+    if ch.choose("dependencies", [False, True]):
+        common["suit-dependencies"] = {"0": {}, "1": {"suit-dependency-prefix": ["a", 7]}}
+    shared = [{"suit-directive-set-component-index": ch.choose("idx", [0, True, [0]])},
+              {"suit-directive-override-parameters": {
+                  "suit-parameter-vendor-identifier": {"RFC4122_UUID": "nordicsemi.com"},
+                  "suit-parameter-class-identifier": {"RFC4122_UUID": {"namespace": "nordicsemi.com", "name": "nRF54H20_sample_app"}}}},
+              {"suit-condition-vendor-identifier": list(B)}, {"suit-condition-class-identifier": list(B)}]
+    fwp = _file(files, root, "fw.bin", fbytes(ch.choose("fwlen", [300, 0, 24])))
+    img = ch.choose("image-params", ["file", "raw", "none"])
+    if img == "file":
+        shared[1]["suit-directive-override-parameters"].update({"suit-parameter-image-digest": digest(ch.choose("img-alg", ALG5), {"file": fwp}),
+                                                                "suit-parameter-image-size": {"file": fwp}})
+    elif img == "raw":
+        shared[1]["suit-directive-override-parameters"].update({"suit-parameter-image-digest": digest("cose-alg-sha-256", "aa" * 32),
+                                                                "suit-parameter-image-size": {"raw": 300}})
+    common["suit-shared-sequence"] = shared
+    man["suit-common"] = common
+    if ch.choose("component-id", [True, False]):
+        man["suit-manifest-component-id"] = ["INSTLD_MFST", {"RFC4122_UUID": {"namespace": "nordicsemi.com", "name": "nRF54H20_sample_root"}}]
+    if ch.choose("version", [True, False]):
+        man["suit-current-version"] = ch.choose("version.v", ["1.2.3", "2.0.0-rc.1"])
+    man["suit-validate"] = [{"suit-condition-image-match": list(B)}]
+    if ch.choose("invoke", [True, False]):
+        man["suit-invoke"] = [{"suit-directive-invoke": [B[1]]}]
+    env = {}
+    install = [{"suit-directive-override-parameters": {"suit-parameter-uri": "#fw"}}, {"suit-directive-fetch": [B[1]]},
+               {"suit-condition-image-match": list(B)}]
+    enc_ = ch.choose("encryption", ["none", "cose", "raw"])
+    if enc_ != "none":
+        install[0]["suit-directive-override-parameters"]["suit-parameter-encryption-info"] = (
+            copy.deepcopy(PARAM_DEFAULTS["suit-parameter-encryption-info"]) if enc_ == "cose" else {"raw": RAW_ENCINFO})
+    if ch.choose("try-each", [False, True]):
+        install.append({"suit-directive-try-each": [[{"suit-directive-copy": []}], [{"suit-directive-run-sequence": [{"suit-condition-abort": []}]}]]})
+    sev = ch.choose("install-form", ["severed", "inline", "severed-no-body"])
+    if sev == "inline":
+        man["suit-install"] = install
+    else:
+        man["suit-install"] = digest(ch.choose("install-alg", ALG5))
+        if sev == "severed":
+            env["suit-install"] = install
+    txt = ch.choose("text", ["severed", "none", "severed-no-body"])
+    if txt != "none":
+        man["suit-text"] = digest("cose-alg-sha-256", ch.choose("text-supplied", ["", "ab" * 32]))
+        if txt == "severed":
+            env["suit-text"] = {"en": {'["M", 2, 235577344, 352256]': {"suit-text-vendor-name": "Nordic Semiconductor ASA", "suit-text-model-name": "m"},
+                                       "suit-text-manifest-description": ch.choose("text-desc", ["desc", "yes", "multi\nline", ""])}}
+    dep = ch.choose("dependency", ["none", "inline", "path", "inline-signed-like"])
+    if dep != "none":
+        child = child_env(seq=9, alg=ch.choose("child-alg", ALG5), extra={"suit-integrated-payloads": {"#leaf": "0102"}})
+        if dep == "inline-signed-like":
+            child["SUIT_Envelope_Tagged"]["suit-authentication-wrapper"]["SuitAuthentication0"] = {"CoseSign1Tagged": {
+                "protected": {"suit-cose-algorithm-id": "cose-alg-eddsa", "suit-cose-key-id": 3}, "unprotected": {}, "payload": None, "signature": "cd" * 64}}
+        man["suit-candidate-verification"] = [{"suit-directive-override-parameters": {
+            "suit-parameter-uri": "#dep", "suit-parameter-image-digest": digest(ch.choose("dep-alg", ALG5), {"envelope": copy.deepcopy(child)})}},
+            {"suit-directive-fetch": [B[1]]}, {"suit-condition-dependency-integrity": list(B)}, {"suit-directive-process-dependency": list(B)}]
+        env["suit-integrated-dependencies"] = {"#dep": child}
+    pay = ch.choose("payload", ["path", "hex", "none", "two"])
+    if pay == "path":
+        env["suit-integrated-payloads"] = {"#fw": fwp}
+    elif pay == "hex":
+        env["suit-integrated-payloads"] = {"#fw": "c0ffee"}
+    elif pay == "two":
+        env["suit-integrated-payloads"] = {"#fw": fwp, "#second": hexs(40)}
+    aw = {"SuitDigest": digest(alg, ch.choose("supplied-wrapper-digest", [None, "", "ee" * 32]))}
+    if aw["SuitDigest"].get("suit-digest-bytes") is None:
+        aw["SuitDigest"].pop("suit-digest-bytes", None)
+    nsig = ch.choose("signatures", [0, 1, 2])
+    for i in range(nsig):
+        aw[f"SuitAuthentication{i}"] = {"CoseSign1Tagged": {"protected": {"suit-cose-algorithm-id": SIGALGS[i], "suit-cose-key-id": 0x7FFFFFE0 + i},
+                                                            "unprotected": {}, "payload": None if i == 0 else {"Issuer": "svmc"}, "signature": hexs(64, i)}}
+    order = ch.choose("member-order", ["auth-first", "manifest-first", "payloads-first"])
+    e = {}
+    parts = {"auth": {"suit-authentication-wrapper": aw}, "man": {"suit-manifest": man}, "rest": env}
+    seqn = {"auth-first": ["auth", "man", "rest"], "manifest-first": ["man", "auth", "rest"], "payloads-first": ["rest", "auth", "man"]}[order]
+    for k in seqn:
+        e.update(parts[k])
+    return {"SUIT_Envelope_Tagged": e}, files
+
+
+NODE_SCENARIOS["whole"] = n_whole
